@@ -249,6 +249,50 @@ theorem sorted_perm_unique {S S' : List Rule} (hS : S.Pairwise (fun a b => ruleL
   intro a b ha hb hab hba
   exact hn.eq_of_id ha (p.symm.subset hb) (ruleLe_antisymm a b hab hba).2
 
+/-! ### the weakest hypothesis: distinct (rank, id) keys -/
+
+/-- No two different rules of the list have the same rank and the same id.  Implied by distinct ids
+(`NodupIds`) and by distinct ranks (`DistinctRanks`). -/
+def KeyInj (R : List Rule) : Prop := ∀ a ∈ R, ∀ b ∈ R, a.rank = b.rank → a.id = b.id → a = b
+
+/-- The ranks of the list are pairwise distinct ("tie-free"). -/
+def DistinctRanks (R : List Rule) : Prop := (R.map (·.rank)).Nodup
+
+theorem NodupIds.keyInj {R : List Rule} (h : NodupIds R) : KeyInj R :=
+  fun _ ha _ hb _ hid => h.eq_of_id ha hb hid
+
+theorem DistinctRanks.eq_of_rank {R : List Rule} (h : DistinctRanks R) {a b : Rule} (ha : a ∈ R)
+    (hb : b ∈ R) (e : a.rank = b.rank) : a = b := by
+  unfold DistinctRanks at h
+  induction R with
+  | nil => cases ha
+  | cons x xs ih =>
+    simp only [List.map_cons, List.nodup_cons, List.mem_map, not_exists, not_and] at h
+    simp only [List.mem_cons] at ha hb
+    rcases ha with rfl | ha <;> rcases hb with rfl | hb
+    · rfl
+    · exact absurd e.symm (h.1 b hb)
+    · exact absurd e (h.1 a ha)
+    · exact ih h.2 ha hb
+
+theorem DistinctRanks.keyInj {R : List Rule} (h : DistinctRanks R) : KeyInj R :=
+  fun _ ha _ hb hr _ => h.eq_of_rank ha hb hr
+
+theorem DistinctRanks.perm {R R' : List Rule} (h : DistinctRanks R) (p : R.Perm R') : DistinctRanks R' := by
+  unfold DistinctRanks at *
+  exact (p.map _).nodup_iff.mp h
+
+theorem KeyInj.perm {R R' : List Rule} (h : KeyInj R) (p : R.Perm R') : KeyInj R' :=
+  fun a ha b hb => h a (p.symm.subset ha) b (p.symm.subset hb)
+
+/-- Two sorted permutations of a list with distinct (rank, id) keys are equal. -/
+theorem sorted_perm_unique_key {S S' : List Rule} (hS : S.Pairwise (fun a b => ruleLe a b = true))
+    (hS' : S'.Pairwise (fun a b => ruleLe a b = true)) (p : S.Perm S') (hk : KeyInj S) : S = S' := by
+  refine List.Perm.eq_of_pairwise (le := fun a b => ruleLe a b = true) ?_ hS hS' p
+  intro a b ha hb hab hba
+  have := ruleLe_antisymm a b hab hba
+  exact hk a ha b (p.symm.subset hb) this.1 this.2
+
 theorem sortRules_perm (R : List Rule) : (sortRules R).Perm R := List.mergeSort_perm R ruleLe
 
 theorem sortRules_sorted (R : List Rule) : (sortRules R).Pairwise (fun a b => ruleLe a b = true) :=
